@@ -307,7 +307,7 @@ func (u *upstream) createClient(addr string) (*client, error) {
 	// start client
 	go func() {
 		c.Start()
-		u.removeClient(addr)
+		u.removeEndedClient(addr, c)
 	}()
 	u.addClientLocked(addr, c)
 	return c, nil
@@ -322,6 +322,19 @@ func (u *upstream) addClientLocked(addr string, c *client) {
 func (u *upstream) removeClient(addr string) {
 	u.clientsMu.Lock()
 	defer u.clientsMu.Unlock()
+	u.removeClientLocked(addr)
+}
+
+// removeEndedClient takes the ended connection c out of the table. The table may
+// hold a successor for the same address by now (when all hosts are replaced the
+// table is emptied before the old connections are stopped): that one stays, or
+// it would be used by nobody and stopped by nobody.
+func (u *upstream) removeEndedClient(addr string, c *client) {
+	u.clientsMu.Lock()
+	defer u.clientsMu.Unlock()
+	if cur, ok := u.loadClients()[addr]; !ok || cur != c {
+		return
+	}
 	u.removeClientLocked(addr)
 }
 
